@@ -7,6 +7,9 @@ import Dyce.AppearModel
 import Dyce.HistOpsModel
 import Dyce.EvalConcrete
 import Dyce.ExplodeModel
+import Dyce.RollerModel
+import Dyce.RollerSpec
+import Dyce.RollModel
 /-! Line protocol over the executable model (import-free, so it links as a `lean_exe`).
 Every op line is `OPCODE` followed by space-separated integers; lists are length-prefixed. -/
 namespace Dyce.Driver
@@ -369,6 +372,93 @@ def opEXPLODESPEC : P String := do
   let n ← nat
   pure (showHistAll (lowestTerms leI (explodeSpec h (fun f => faces.contains f) n)))
 
+/-! ### roller trees -/
+
+def binOp (c : Int) : Int → Int → Int :=
+  if c = 0 then (· + ·) else if c = 1 then (· - ·) else if c = 2 then (· * ·)
+  else if c = 3 then (fun a b => if a < b then 1 else 0)
+  else if c = 4 then (fun a b => if a = b then 1 else 0)
+  else if c = 5 then (fun a b => if a ≥ b then 1 else 0)
+  else (fun a b => if a ≠ b then 1 else 0)
+
+def unOp (c : Int) : Int → Int :=
+  if c = 0 then (fun a => -a) else if c = 1 then (fun a => a.natAbs) else (fun a => a)
+
+def predOp (c arg : Int) : Int → Bool :=
+  if c = 0 then (fun v => decide (v > arg)) else if c = 1 then (fun v => decide (v % 2 = 0))
+  else if c = 2 then (fun v => decide (v = arg)) else (fun v => decide (v < arg))
+
+def mapOp (c arg : Int) : Int → Int :=
+  if c = 0 then (fun v => v) else if c = 1 then (fun v => min v arg) else if c = 2 then (fun v => -v)
+  else (fun v => v + arg)
+
+partial def rtree : P RTree := do
+  let t ← tok
+  if t = 0 then do let v ← tok; pure (.value (.scalar v))
+  else if t = 1 then do let h ← hist; pure (.value (.hist h))
+  else if t = 2 then do let hs ← listOf hist; pure (.value (.pool hs))
+  else if t = 3 then do let ts ← listOf rtree; pure (.pool ts)
+  else if t = 4 then do let n ← nat; let s ← rtree; pure (.rep n s)
+  else if t = 5 then do let c ← tok; let l ← rtree; let r ← rtree; pure (.bin (binOp c) l r)
+  else if t = 6 then do let c ← tok; let s ← rtree; pure (.un (unOp c) s)
+  else if t = 7 then do let c ← tok; let a ← tok; let ts ← listOf rtree; pure (.filt (predOp c a) ts)
+  else if t = 8 then do let w ← listOf sel; let ts ← listOf rtree; pure (.sel w ts)
+  else if t = 9 then do
+    let c ← tok; let a ← tok; let e ← rtree; let rep ← tok; let md ← nat; let src ← rtree
+    pure (.subst (predOp c a) e (rep = 1) md src)
+  else do
+    let c ← tok; let a ← tok; let fc ← tok; let fa ← tok; let md ← nat; let src ← rtree
+    pure (.substMap (predOp c a) (mapOp fc fa) md src)
+
+def showVals (vs : List Int) : String := "(" ++ ",".intercalate (vs.map toString) ++ ")"
+
+def aggStrings (l : List (String × Nat)) : String :=
+  let agg := l.foldl (fun acc e => if e.2 = 0 then acc else insertAgg e.1 e.2 acc) []
+  let sorted := agg.mergeSort (fun a b => decide (a.1 ≤ b.1))
+  "ok " ++ " ".intercalate (sorted.map fun e => e.1 ++ "*" ++ toString e.2)
+
+mutual
+partial def showRO : RO → String
+  | .mk v srcs ow =>
+    "O(" ++ (match v with | some x => toString x | none => "N") ++ (if ow then "+" else "-")
+      ++ "[" ++ ",".intercalate (srcs.map showRO) ++ "])"
+end
+
+/-- live outcomes in order, then the tombstones sorted (their relative order is a set-iteration
+artefact in the implementation) -/
+def showOutcomes (outs : List RO) : String :=
+  let live := (outs.filter fun o => o.value.isSome).map showRO
+  let dead := ((outs.filter fun o => o.value.isNone).map showRO).mergeSort (fun a b => decide (a ≤ b))
+  ",".intercalate (live ++ dead)
+
+partial def showRec : RollRec → String
+  | .mk outs srs => "R{" ++ showOutcomes outs ++ ";" ++ ",".intercalate (srs.map showRec) ++ "}"
+
+/-- `ROLLVALS tree` : the exact distribution of `tuple(r.roll().outcomes())` over all random choices -/
+def opROLLVALS : P String := do
+  let t ← rtree
+  pure (aggStrings ((rollW mkRollDeep t).map fun e => (showVals e.1.values, e.2)))
+
+/-- `DENVALS tree` : the same distribution from the record-free denotation -/
+def opDENVALS : P String := do
+  let t ← rtree
+  pure (aggStrings ((den t).map fun e => (showVals e.1, e.2)))
+
+/-- `ROLLRECS tree` : the exact distribution of whole roll records -/
+def opROLLRECS : P String := do
+  let t ← rtree
+  pure (aggStrings ((rollW mkRollDeep t).map fun e => (showRec e.1, e.2)))
+
+/-- `PICKALL weights…` : CPython's `choices` index for every integer part `u < total` -/
+def opPICKALL : P String := do
+  let ws ← listOf nat
+  pure ("ok " ++ " ".intercalate ((List.range ws.sum).map fun u => toString (pickIdx ws u)))
+
+/-- `PROLL dice…` : the exact distribution of `P.roll()` -/
+def opPROLL : P String := do
+  let hs ← listOf hist
+  pure (aggStrings ((rollPoolW hs).map fun e => (showVals e.1, e.2)))
+
 def dispatch (op : String) : P String :=
   match op with
   | "RWC" => opRWC
@@ -390,6 +480,11 @@ def dispatch (op : String) : P String :=
   | "EVAL" => opEVAL
   | "AGG" => opAGG
   | "EXPLODE" => opEXPLODE
+  | "ROLLVALS" => opROLLVALS
+  | "PICKALL" => opPICKALL
+  | "PROLL" => opPROLL
+  | "DENVALS" => opDENVALS
+  | "ROLLRECS" => opROLLRECS
   | "EXPLODESPEC" => opEXPLODESPEC
   | "OSTAT" => opOSTAT
   | "EXK" => opEXK
